@@ -335,10 +335,32 @@ class _rewrite_captured_vars(ast.NodeTransformer):
         return node
 
     def visit_Lambda(self, node: ast.Lambda) -> Any:
-        self._ignore_stack.append([a.arg for a in node.args.args])
+        l_args = node.args
+        all_args = l_args.posonlyargs + l_args.args + l_args.kwonlyargs
+        all_args += [a for a in (l_args.vararg, l_args.kwarg) if a is not None]
+        self._ignore_stack.append([a.arg for a in all_args])
         v = super().generic_visit(node)
         self._ignore_stack.pop()
         return v
+
+    def _visit_comprehension(self, node: ast.AST) -> Any:
+        "The loop variables of a comprehension are local to it"
+        self._ignore_stack.append(
+            [
+                n.id
+                for g in node.generators  # type: ignore
+                for n in ast.walk(g.target)
+                if isinstance(n, ast.Name)
+            ]
+        )
+        v = super().generic_visit(node)
+        self._ignore_stack.pop()
+        return v
+
+    visit_ListComp = _visit_comprehension
+    visit_GeneratorExp = _visit_comprehension
+    visit_SetComp = _visit_comprehension
+    visit_DictComp = _visit_comprehension
 
     def visit_Call(self, node: ast.Call) -> Any:
         "If the rewritten call turns into an actual function, then we have to bail,"
